@@ -235,6 +235,13 @@ def auto_discharge(s):
         d = dominating_lt(b, s.pos, idx, ln)
         if d:
             return d
+    if s.kind == 'overflow' and t['mk'].endswith(':Sub') and is_local_op(t.get('a')) and is_local_op(t.get('b')):
+        la = _len_source(b, t['a'])
+        if la is not None:
+            n_, c_, f_ = deep_sources(b, t['b'], depth=12)
+            counted = any(re.search(r'Iterator>?::count$', c or '') for c in c_) and not any(re.search(r'::(chain|cycle|repeat|flat_map|flatten|zip)$', c or '') for c in c_)
+            if counted and (set(la) & (set(n_) | {x.split('.')[-1] for x in f_})):
+                return 'auto/len-minus-count: the subtrahend counts items of an iterator over the same collection (without chain / flat_map), so it is <= len'
     d = search_index_discharge(b, s)
     if d:
         return d
@@ -322,6 +329,10 @@ def _search_derived(b, o, recv_names, plus_ok, depth=8):
                 continue
             return False
         st = org[1]
+        if st.get('k') == 'assign' and st['rv']['k'] == 'bin' and st['rv']['op'] in ('Sub', 'SubWithOverflow', 'SubUnchecked') and plus_ok:
+            ls = _len_source(b, st['rv']['a'])
+            res.append(ls is not None and bool(set(ls) & recv_names))
+            continue
         if st.get('k') == 'assign' and st['rv']['k'] == 'bin' and st['rv']['op'] in ('Add', 'AddWithOverflow', 'AddUnchecked'):
             a_, b_ = st['rv']['a'], st['rv']['b']
             c = b_ if not is_local_op(b_) else (a_ if not is_local_op(a_) else None)
